@@ -272,6 +272,66 @@ def pool_programs(ctx, rng):
     return progs
 
 
+STO0 = [[str(1), "7"], [str(T256 - 1), "5"]]       # committed before the transaction: slot 1 = 7, slot 2^256-1 = 5; slot 0 is empty
+GAPS = [0, 64, 200, 512, 1000, 2048, 3000, 4095, 5000, 8191]
+
+
+def mem_program(rng):
+    """Memory growth in several separate steps (contiguous words, gaps, offsets of a few KB where the quadratic term
+    counts), re-touching allocated words in between: the expansion gas is charged as new total minus previous total."""
+    n = rng.randrange(4, 12)
+    style = rng.random()
+    code, touched, d = [], [], 0
+    top = 0                                  # first byte above everything touched so far
+    for i in range(n):
+        r = rng.random()
+        if i < 3 or r < 0.35:                # a growth step
+            if style < 0.35:
+                off = top + rng.choice([0, 0, 0, 32])                    # contiguous: 0, 32, 64, ...
+            elif style < 0.7:
+                off = top + rng.choice([0, 1, 31, 33, 64, 100, 500, 1000])
+            else:
+                off = max(top, rng.choice(GAPS)) + rng.randrange(0, 40) + (rng.choice([1024, 2048, 4000]) if rng.random() < 0.3 else 0)
+        elif r < 0.75 and touched:           # inside what is allocated already
+            off = max(0, rng.choice(touched) + rng.randrange(-31, 32))
+        else:
+            off = rng.randrange(0, max(top, 1))
+        off = min(off, 20000)
+        m = rng.random()
+        if m < 0.5:
+            code += [push(rand_word(rng)), push(off), ["MSTORE"]]
+            top = max(top, off + 32)
+        elif m < 0.7:
+            code += [push(rand_word(rng)), push(off), ["MSTORE8"]]
+            top = max(top, off + 1)
+        else:
+            code += [push(off), ["MLOAD"]]
+            top = max(top, off + 32)
+            d += 1
+            if d > 4 or rng.random() < 0.6:
+                code.append(["POP"])
+                d -= 1
+        touched.append(off)
+        top = (top + 31) // 32 * 32 if rng.random() < 0.5 else top
+    return {"kind": "mem", "code": code}
+
+
+def sto_program(rng):
+    """SSTORE / SLOAD sequences over slots with and without a committed value: every branch of net gas metering
+    (no-op, fresh set, reset of an original value, dirty slot, clearing and restoring)."""
+    sto0 = [kv for kv in STO0 if rng.random() < 0.7]
+    orig = {int(k): int(v) for k, v in sto0}
+    code = []
+    for _ in range(rng.randrange(3, 10)):
+        k = rng.choice(STO_KEYS)
+        if rng.random() < 0.3:
+            code += [push(k), ["SLOAD"], ["POP"]]
+        else:
+            v = rng.choice([0, 0, orig.get(k, 0), 9, 9, rand_word(rng)])
+            code += [push(v), push(k), ["SSTORE"]]
+    return {"kind": "sto", "code": code, "sto0": sto0}
+
+
 def generate(ctx):
     rng = random.Random(ctx.seed * 7919 + (0 if ctx.quick else 1))
     progs = []
@@ -286,12 +346,17 @@ def generate(ctx):
     ns = len(progs) - nw - ng
     nprog = 300 if ctx.quick else 5000
     progs += [random_program(rng) for _ in range(nprog)]
+    for q in progs[-nprog:]:
+        if rng.random() < 0.6:
+            q["sto0"] = STO0
+    nmem, nsto = (300, 250) if ctx.quick else (1200, 2000)
+    progs += [mem_program(rng) for _ in range(nmem)] + [sto_program(rng) for _ in range(nsto)]
     pp = pool_programs(ctx, rng)
     progs += pp
     for i, p in enumerate(progs):
         p["id"] = i
-    ctx.note("programs: %d witnesses, %d grid singles, %d random singles, %d random programs, %d from the pool model" %
-             (nw, ng, ns, nprog, len(pp)))
+    ctx.note("programs: %d witnesses, %d grid singles, %d random singles, %d random programs, %d memory-growth, %d storage, "
+             "%d from the pool model" % (nw, ng, ns, nprog, nmem, nsto, len(pp)))
     return progs
 
 
@@ -399,16 +464,17 @@ def run(ctx):
                        "tuple) pairs of computational opcodes among the generated single operations plus the number of random "
                        "multi-instruction programs")
     ctx.assumptions += ["jump table = the Istanbul table selected by params.Versions[YouCurrentVersion].EVMVersion",
-                        "programs are straight-line (no jumps), stack depth <= 12, memory offsets < 128, gas limit 10^7",
-                        "gas is judged for the computational opcodes only (the property's 'specified gas'); memory and storage "
-                        "opcodes are judged for read-back",
+                        "programs are straight-line (no jumps), stack depth <= 12, memory offsets <= 20 KB, gas limit 10^7",
+                        "gas is judged for the computational opcodes, for MLOAD/MSTORE/MSTORE8 (3 + memory expansion, the allocated "
+                        "words tracked per program) and for SLOAD/SSTORE (Istanbul: 800 / EIP-2200 net metering against the storage "
+                        "committed before the transaction); refunds are not judged",
                         "functional results, stack effect and gas only: no statement about big.Int memory safety or speed"]
     model_check(ctx)
     progs = generate(ctx)
     for p in (progs[0], progs[len(progs) // 2], progs[-1]):
         ctx.sample(p)
     distinct = {json.dumps(p["code"]) for p in progs if p["kind"] != "prog"}
-    ctx.cov["distinct_nontrivial"] = len(distinct) + sum(1 for p in progs if p["kind"] in ("prog", "pool"))
+    ctx.cov["distinct_nontrivial"] = len(distinct) + sum(1 for p in progs if p["kind"] in ("prog", "pool", "mem", "sto"))
     trace = judge(ctx, progs)
     if not ctx.quick:
         selftest(ctx, trace)
